@@ -22,7 +22,7 @@ def build():
 
     def b_bin(out):
         vc._run(["gcc"] + vc.SAN + ["-fno-sanitize-recover=undefined"] + vc.DEFS + vc.inc_flags() + ["-w", "-c", os.path.join(vc.REPO, "src", "set.c"), "-o", os.path.join(out, "set.o")])
-        vc._run(["g++", "-fsanitize=address,undefined", os.path.join(obj, "set_h.o"), os.path.join(out, "set.o"), "-lrapidcheck", "-o", os.path.join(out, "set_h")])
+        vc._run(["g++", "-fsanitize=address,undefined", os.path.join(obj, "set_h.o"), os.path.join(out, "set.o"), "-lrapidcheck", "-levent", "-lm", "-o", os.path.join(out, "set_h")])
     return os.path.join(vc.cached_build("seth-bin", vc.repo_sources() + [hsrc], CXX, b_bin), "set_h")
 
 
